@@ -532,6 +532,12 @@ def corpus_cases():
 
 
 def run_text_stage(run, n=None):
+    """violations registered by this stage carry "stage": "T03" in their replays (common.Run.in_stage)"""
+    with run.in_stage("T03"):
+        return _run_text_stage(run, n)
+
+
+def _run_text_stage(run, n=None):
     """the harness must be built (harness_build()). Returns the counts (also stored in run.notes["text_pricedb"]).
     Called from another check (C07) it first makes sure that the theorems of coq/props/T03.v still build."""
     if n is None:
